@@ -337,7 +337,7 @@ class RiscvArch(Architecture):
         if self.has_option("rvc") and isinsrange(10, -ssize):
             yield CAddi16sp(-ssize)  # Reserve stack space
         else:
-            yield Addi(SP, SP, -ssize)  # Reserve stack space
+            yield from self.adjust_sp(-ssize)  # Reserve stack space
 
         if self.has_option("rvc"):
             yield CSwsp(LR, 4)
@@ -359,7 +359,7 @@ class RiscvArch(Architecture):
         if self.has_option("rvc") and isinsrange(10, rsize):
             yield CAddi16sp(-rsize)  # Reserve stack space
         else:
-            yield Addi(SP, SP, -rsize)  # Reserve stack space
+            yield from self.adjust_sp(-rsize)  # Reserve stack space
 
         i = 0
         for register in saved_registers:
@@ -376,7 +376,17 @@ class RiscvArch(Architecture):
             if self.has_option("rvc") and isinsrange(10, ssize):
                 yield CAddi16sp(-ssize)  # Reserve stack space
             else:
-                yield Addi(SP, SP, -ssize)  # Reserve stack space
+                yield from self.adjust_sp(-ssize)  # Reserve stack space
+
+    def adjust_sp(self, amount):
+        """Add amount to the stack pointer.
+
+        The immediate of addi is limited to 12 bits: larger adjustments
+        are made in steps that keep the stack pointer 16 byte aligned."""
+        while amount:
+            step = max(-2032, min(2032, amount))
+            yield Addi(SP, SP, step)
+            amount -= step
 
     def litpool(self, frame):
         """Generate instruction for the current literals"""
@@ -414,7 +424,7 @@ class RiscvArch(Architecture):
             if self.has_option("rvc") and isinsrange(10, ssize):
                 yield CAddi16sp(ssize)  # Reserve stack space
             else:
-                yield Addi(SP, SP, ssize)  # Reserve stack space
+                yield from self.adjust_sp(ssize)  # Reserve stack space
 
         # Callee saved registers:
         saved_registers = self.get_callee_saved(frame)
@@ -432,7 +442,7 @@ class RiscvArch(Architecture):
         if self.has_option("rvc") and isinsrange(10, rsize):
             yield CAddi16sp(rsize)  # Reserve stack space
         else:
-            yield Addi(SP, SP, rsize)  # Reserve stack space
+            yield from self.adjust_sp(rsize)  # Reserve stack space
 
         if self.has_option("rvc"):
             yield CLwsp(LR, 4)
@@ -445,7 +455,7 @@ class RiscvArch(Architecture):
         if self.has_option("rvc") and isinsrange(10, ssize):
             yield CAddi16sp(ssize)  # Free stack space
         else:
-            yield Addi(SP, SP, ssize)  # Free stack space
+            yield from self.adjust_sp(ssize)  # Free stack space
 
         # Return
         if self.has_option("rvc"):
